@@ -133,6 +133,8 @@ func (e *Engine) Begin(ctx context.Context, lock bool) (*Transaction, error) {
 	// acquire lock
 	e.mutex.Lock()
 	defer e.mutex.Unlock()
+	defer verifAt("begin.return")
+	verifAt("begin.locked", lock)
 
 	// check if closed
 	if !e.tomb.Alive() {
@@ -158,9 +160,12 @@ func (e *Engine) Begin(ctx context.Context, lock bool) (*Transaction, error) {
 
 	// acquire token (without lock); use a tomb-aware context so that a shutdown
 	// unblocks the acquisition
+	verifAt("begin.unlock")
 	e.mutex.Unlock()
 	ok = e.token.Acquire(e.tomb.Context(ctx).Done(), time.Minute)
+	verifAt("begin.acquired", ok)
 	e.mutex.Lock()
+	verifAt("begin.relocked", ok)
 	if !ok {
 		if !e.tomb.Alive() {
 			return nil, ErrEngineClosed
@@ -196,6 +201,8 @@ func (e *Engine) Commit(txn *Transaction) error {
 	// acquire lock
 	e.mutex.Lock()
 	defer e.mutex.Unlock()
+	defer verifAt("commit.return")
+	verifAt("commit.locked")
 
 	// check if closed
 	if !e.tomb.Alive() {
@@ -225,13 +232,16 @@ func (e *Engine) Commit(txn *Transaction) error {
 	txn.Clean(e.opts.MinOplogSize, e.opts.MaxOplogSize, e.opts.MinOplogAge, e.opts.MaxOplogAge)
 
 	// write catalog
+	verifAt("commit.store")
 	err := e.store.Store(txn.Catalog())
+	verifAt("commit.stored", err == nil)
 	if err != nil {
 		return err
 	}
 
 	// set new catalog
 	e.catalog = txn.Catalog()
+	verifAt("commit.published")
 
 	// broadcast change
 	for stream := range e.streams {
@@ -251,6 +261,8 @@ func (e *Engine) Abort(txn *Transaction) {
 	// acquire lock
 	e.mutex.Lock()
 	defer e.mutex.Unlock()
+	defer verifAt("abort.return")
+	verifAt("abort.locked")
 
 	// check if closed
 	if !e.tomb.Alive() {
@@ -274,6 +286,8 @@ func (e *Engine) Watch(handle Handle, pipeline bsonkit.List, resumeAfter, startA
 	// acquire lock
 	e.mutex.Lock()
 	defer e.mutex.Unlock()
+	defer verifAt("watch.return")
+	verifAt("watch.locked")
 
 	// check if closed
 	if !e.tomb.Alive() {
@@ -372,6 +386,7 @@ func (e *Engine) Watch(handle Handle, pipeline bsonkit.List, resumeAfter, startA
 func (e *Engine) Close() {
 	// acquire lock
 	e.mutex.Lock()
+	verifAt("close.locked")
 
 	// check if closed
 	if !e.tomb.Alive() {
@@ -390,6 +405,7 @@ func (e *Engine) Close() {
 	// kill the tomb under the mutex, then release it so that in-flight Begin
 	// calls can re-acquire the mutex and observe the dead tomb
 	e.tomb.Kill(nil)
+	verifAt("close.killed")
 	e.mutex.Unlock()
 
 	// close each stream under its own mutex so concurrent or subsequent
@@ -405,7 +421,9 @@ func (e *Engine) Close() {
 	}
 
 	// await goroutine termination
+	verifAt("close.wait")
 	_ = e.tomb.Wait()
+	verifAt("close.return")
 }
 
 func (e *Engine) expire(interval time.Duration, reporter func(error)) {
